@@ -2,6 +2,7 @@
 package c10
 
 import (
+	"bytes"
 	"context"
 	"fmt"
 	"reflect"
@@ -105,11 +106,12 @@ type ewiP struct {
 	id   string
 	A    string `class:"sensitive"`
 	salt []byte
+	info []byte
 }
 
 func (e *ewiP) EventId() string  { return e.id }
 func (e *ewiP) HmacSalt() []byte { return e.salt }
-func (e *ewiP) HmacInfo() []byte { return nil }
+func (e *ewiP) HmacInfo() []byte { return e.info }
 
 func TestC10AllNoneSpecial(t *testing.T) {
 	sec := stats.Sec("all_none_special", "rapid: every operation overridden to none x payloads implementing RotateWrapper (any subset of wrapper/salt/info) or EventWrapperInfo (ids incl. \"\"), filter with or without a wrapper; oracle = the event is forwarded without error and with an equal payload of the same type (a rotation payload may instead be consumed, which C09 demands), and a filter that forwarded it kept its own keys; non-trivial = every case; distinct = case descriptor")
@@ -163,5 +165,74 @@ func TestC10AllNoneSpecial(t *testing.T) {
 			t.Fatalf("VIOLATION C10: a filter that forwarded the rotation payload unchanged nevertheless changed its own keys\ncase: %s", desc)
 		}
 		sec.Case(true, desc, "all_none_special")
+	})
+}
+
+// TestC10ControlPayloadsUntouched: rotation payloads and per-event wrapper payloads are events like any other:
+// Process must not modify what it was given (the same event is handed to every pipeline of its type).
+func TestC10ControlPayloadsUntouched(t *testing.T) {
+	sec := stats.Sec("control_payloads_untouched", "rapid: filters with generated overrides (not all none) x payloads implementing RotateWrapper (wrapper / salt / info present or not, non-empty byte slices) or EventWrapperInfo (per-event salt / info); oracle = after Process the payload the caller handed in still holds exactly its bytes (salt, info, tagged fields), whether the event was consumed or forwarded; non-trivial = a rotation payload with salt and info; distinct = case descriptor")
+	rapid.Check(t, func(t *rapid.T) {
+		c := encrun.GenFCfg(t, false)
+		if c.PCfg().AllNone() {
+			c.Overrides = nil
+		}
+		f := c.Filter()
+		desc := c.String()
+		rot := rapid.Bool().Draw(t, "rotation")
+		salt := rapid.SliceOfN(rapid.Byte(), 0, 12).Draw(t, "salt")
+		info := rapid.SliceOfN(rapid.Byte(), 0, 12).Draw(t, "info")
+		if rapid.IntRange(0, 3).Draw(t, "nilSalt") == 0 {
+			salt = nil
+		}
+		if rapid.IntRange(0, 3).Draw(t, "nilInfo") == 0 {
+			info = nil
+		}
+		saltCopy, infoCopy := append([]byte(nil), salt...), append([]byte(nil), info...)
+		var payload interface{}
+		var check func() string
+		if rot {
+			r := &rotP{Secret: "s", salt: salt, info: info}
+			if rapid.Bool().Draw(t, "w") {
+				r.w = encrun.Key.Wrapper()
+			}
+			payload = r
+			desc += fmt.Sprintf(" rotation-payload{wrapper=%v salt=%dB info=%dB}", r.w != nil, len(salt), len(info))
+			check = func() string {
+				switch {
+				case !bytes.Equal(r.salt, saltCopy):
+					return fmt.Sprintf("its salt was %x, now %x", saltCopy, r.salt)
+				case !bytes.Equal(r.info, infoCopy):
+					return fmt.Sprintf("its info was %x, now %x", infoCopy, r.info)
+				case r.Secret != "s":
+					return fmt.Sprintf("its field Secret is now %q", r.Secret)
+				}
+				return ""
+			}
+		} else {
+			e := &ewiP{id: "ev-1", A: "a", salt: salt, info: info}
+			payload = e
+			desc += fmt.Sprintf(" event-wrapper-payload{salt=%dB info=%dB}", len(salt), len(info))
+			check = func() string {
+				switch {
+				case !bytes.Equal(e.salt, saltCopy):
+					return fmt.Sprintf("its salt was %x, now %x", saltCopy, e.salt)
+				case !bytes.Equal(e.info, infoCopy):
+					return fmt.Sprintf("its info was %x, now %x", infoCopy, e.info)
+				case e.A != "a":
+					return fmt.Sprintf("its field A is now %q", e.A)
+				}
+				return ""
+			}
+		}
+		in := &eventlogger.Event{Type: "t", Payload: payload}
+		_, _ = f.Process(context.Background(), in)
+		if msg := check(); msg != "" {
+			t.Fatalf("VIOLATION C10: Process modified the payload it was given: %s\ncase: %s", msg, desc)
+		}
+		if in.Payload != payload || in.Type != "t" {
+			t.Fatalf("VIOLATION C10: Process modified the event it was given\ncase: %s", desc)
+		}
+		sec.Case(rot && len(salt) > 0 && len(info) > 0, desc, fmt.Sprintf("rotation=%v", rot))
 	})
 }
